@@ -597,3 +597,7 @@ pub mod ptest {
         }
     }
 }
+
+#[cfg(kani)]
+#[path = "/verif/kani/sciparse/c03_codec.rs"]
+mod verif_c03_codec;
